@@ -4,6 +4,7 @@
 set -u
 cd "$(dirname "$0")/.."
 export GOFLAGS=-mod=mod GOPROXY=off GOSUMDB=off GOTOOLCHAIN=local
+rm -rf .work .build/bin   # scratch of earlier (possibly killed) runs
 mkdir -p .build/setup evidence replays .work
 sed "s#=> /repo#=> ${VERIF_REPO:-/repo}#" harness/go.mod > .build/setup/h.mod
 cp "${VERIF_REPO:-/repo}/go.sum" .build/setup/h.sum
